@@ -265,6 +265,17 @@ fn scaling(thorough: bool) -> Stats {
                 cat(&[vec![T::LParen], rep(&[one, T::Comma, one, T::Semi], n)]),
                 cat(&[rep(&[one, plus, T::LParen], n), vec![one], rep(&[T::RParen], n), vec![one]]),
                 cat(&[rep(&[T::Not, T::Minus], n), vec![T::Lit("true"), T::Not]]),
+                // a sequence group that stays open while n more parentheses open inside it; balanced, one `)` too many, one too few
+                cat(&[vec![T::LParen, one, T::Comma], rep(&[T::LParen], n), vec![one], rep(&[T::RParen], n), vec![T::RParen]]),
+                cat(&[vec![T::LParen, one, T::Comma], rep(&[T::LParen], n), vec![one], rep(&[T::RParen], n), vec![T::RParen, T::RParen]]),
+                cat(&[vec![T::LParen, one, T::Semi], rep(&[T::LParen], n), vec![one], rep(&[T::RParen], n)]),
+                cat(&[vec![a, T::LParen, one, T::Comma], rep(&[T::LParen], n), vec![one], rep(&[T::RParen], n + 2)]),
+                // a malformed statement at the start, in the middle and at the end of a chain / tuple of n well-formed ones
+                cat(&[vec![one, plus, T::Semi], rep(&[one, plus, one, T::Semi], n), vec![one]]),
+                cat(&[rep(&[one, plus, one, T::Semi], n / 2), vec![T::Minus, T::Semi], rep(&[one, plus, one, T::Semi], n - n / 2), vec![one]]),
+                cat(&[rep(&[one, T::Comma], n), vec![T::Not, T::Comma, one]]),
+                cat(&[rep(&[one, plus, one, T::Semi], n), vec![a, T::Bin("+=")]]),
+                cat(&[vec![T::LParen], rep(&[one, T::Semi], n), vec![one, one, T::Semi, one, T::RParen]]),
             ];
             for f in fams {
                 check_seq(&f, &ctxs, &mut st);
@@ -305,7 +316,7 @@ pub fn run(cfg: &Cfg) -> Report {
     Report {
         property: ID,
         level: "model_checking",
-        rule: format!("depth-first search over every token sequence of length <= {n_rep} over the 12-token class alphabet `1 a + - ! = += ( ) , ; true` and of length <= {n_wide} over the 34-token alphabet with every operator; a state is a token prefix, a transition appends one token, every state is fed to the real tokenizer/tree builder (and, if it precompiles although ill-formed, evaluated in 5 generous contexts). Plus 18 scaling families (a missing or surplus parenthesis, a juxtaposition or a dangling operator at the end of or deep inside a long well-formed input) at every size 1..20 and up to 129 / 1..40 and up to 400. Non-trivial = classified unbalanced or ill-formed by the recogniser; each sequence is enumerated exactly once, so the count is of distinct sequences"),
+        rule: format!("depth-first search over every token sequence of length <= {n_rep} over the 12-token class alphabet `1 a + - ! = += ( ) , ; true` and of length <= {n_wide} over the 34-token alphabet with every operator; a state is a token prefix, a transition appends one token, every state is fed to the real tokenizer/tree builder (and, if it precompiles although ill-formed, evaluated in 5 generous contexts). Plus 27 scaling families (a missing or surplus parenthesis, a juxtaposition or a dangling operator at the end of or deep inside a long well-formed input) at every size 1..20 and up to 129 / 1..40 and up to 400. Non-trivial = classified unbalanced or ill-formed by the recogniser; each sequence is enumerated exactly once, so the count is of distinct sequences"),
         nontrivial_set: "counter:nontrivial-distinct",
         exhaustive: true,
         bound_completed: format!("length {n_rep} (class alphabet), {n_wide} (wide alphabet)"),
